@@ -229,6 +229,12 @@ pub fn judge<E: Runnable>(sub: &'static str, c: &Case<E>, obs: &mut Obs) {
     }
     if let Outcome::Done(o) = &first {
         obs.class_if(o.has_error(), "error_outcome");
+        if o.has_error() && std::env::var("C20_DEBUG").is_ok() {
+            eprintln!("c20 debug: {} -> {:?}", serde_json::to_string(e).unwrap_or_default(), o.notes);
+        }
+    }
+    if let (Outcome::Panicked(m), true) = (&first, std::env::var("C20_DEBUG").is_ok()) {
+        eprintln!("c20 debug: {} -> panic {m}", serde_json::to_string(e).unwrap_or_default());
     }
 
     // (1) repetitions in the same pool size
